@@ -189,6 +189,13 @@ class _RAW(Walker):
             else:
                 for c in self._raising_calls(st):
                     self.violations.append((st, f"call of {norm(c.func)} (may raise)"))
+                # unit arithmetic refuses offset (degC, degF) and logarithmic units: Unit.__mul__ / __truediv__ / __pow__
+                for b_ in ast.walk(st):
+                    if isinstance(b_, ast.BinOp) and isinstance(b_.op, (ast.Mult, ast.Div, ast.Pow)):
+                        def _is_unit(e):
+                            return (isinstance(e, ast.Attribute) and e.attr == "units") or (isinstance(e, ast.Call) and norm(e.func) == "getattr" and len(e.args) >= 2 and isinstance(e.args[1], ast.Constant) and e.args[1].value == "units")
+                        if _is_unit(b_.left) and (_is_unit(b_.right) or isinstance(b_.op, ast.Pow)):
+                            self.violations.append((st, f"unit arithmetic `{norm(b_)[:50]}` (Unit operators refuse offset and logarithmic units)"))
         new = state
         if id(st) not in self.accepted:
             for aliases, text, node in self.eff.writes(st):
@@ -279,6 +286,10 @@ def raise_after_write(repo, res):
         ok = len(body) == 1 and isinstance(body[0], ast.Expr) and isinstance(body[0].value, ast.Call) and norm(body[0].value.func) == "self.convert_to_units"
         res.check(ok, m, f.where(), f"{m} only delegates to convert_to_units (argument evaluation precedes any write)", rid=r2)
     run(arr.func("unyt_array.__setitem__"), {"self"}, "__setitem__")
+    # ndarray-method overrides with out=: the unit of the result is worked out (and possibly refused) before NumPy writes
+    for m_ in ("dot", "take"):
+        if arr.has_func(f"unyt_array.{m_}"):
+            run(arr.func(f"unyt_array.{m_}"), {"out"}, f"method:{m_}", roots={"self", "out", "b", "indices"}, extra_alias={"out_view": {"out"}})
     # __array_ufunc__
     a = UfuncAnchors(repo)
     fn = a.fn
